@@ -7,8 +7,8 @@ Model: `Model/Core.lean` — any number of clients, requests, hosts, connections
 interleaving of the atomic handler steps (`Act` lists of any length), every backend outcome,
 connection deaths at any point, stale pending entries left behind by failed writes, duplicate
 close notifications. Safety ("never two", "on its own stream") is proved outright; the liveness
-half ("never none") is proved for the single-request life-cycle (`Model/Retry.lean`) under the
-stated proviso and is otherwise covered by the correspondence streams (see DESIGN.md §5 C01).
+half ("never none") is proved for the single-request life-cycle (`Model/Retry.lean`) and is
+otherwise covered by the correspondence streams (see DESIGN.md §5 C01).
 -/
 namespace CqlVerif.C01
 open CqlVerif.Core
@@ -34,14 +34,17 @@ theorem reply_matches_request (as : List Act) (client : Nat) (cstream : Int) (id
   intro s e he _
   exact (reachable_inv _).1.addr e he
 
-/-- single-request liveness (from `Model/Retry`): no endless same-host resend while the host
-that has just answered stays usable for the next attempt; the excluded point is `C05.spin_witness`. -/
-theorem no_spin_partial (down : Nat → Retry.Host → Bool) (idem : Bool) (plan : List Retry.Host) (script : List Retry.Outcome)
-    (hstable : ∀ n h, down n h = false → down (n + 1) h = false) :
-    (Retry.run down idem plan script).diverged = false := by
-  apply Retry.go_no_spin down script .next _ hstable
-  · intro h; cases h
-  · rfl
+/-- single-request liveness (from `Model/Retry`): once every attempt has been answered or dropped
+(`plan + 1` outcomes, + one per re-execution after a re-prepare) the request is done, i.e. it has
+been answered — whatever the outcomes and however hosts go down between attempts. -/
+theorem answered_when_attempts_answered (down : Nat → Retry.Host → Bool) (idem : Bool) (plan : List Retry.Host)
+    (script : List Retry.Outcome) (hns : Retry.noSilent script = true)
+    (hlen : plan.length + 1 + RetrySpec.countReprepOk script ≤ script.length) :
+    (Retry.run down idem plan script).done = true ∧ (Retry.run down idem plan script).reply.isSome = true := by
+  have hd : (Retry.run down idem plan script).done = true := by
+    apply Retry.go_terminates down script .next _ hns
+    simpa using hlen
+  exact ⟨hd, Retry.done_has_reply down script .next _ (by simp) hd⟩
 
 /-- non-vacuity: two hosts, an idempotent request in flight on host 0 whose connection dies; it
 fails over to host 1, whose answer is delivered — once. -/
